@@ -1,14 +1,51 @@
-(* C19 (continuation) — finding C19-inverted-bounds.  Full statement wanted by the property: the box
-   BOUNDS reports contains every retrievable geometry.  It is FALSE for the code as written when SET
-   stored a BOUNDS object whose first corner is above its second (cmdSET does not order or refuse the
-   corners): witness SET k a BOUNDS 10 10 0 0 ; SET k b POINT 5 5 ; BOUNDS k -> [[5 5] [5 5]], which the
-   model admits (bounds_ok) and which does not contain a's corner (10, 10).  c19_bounds_partial (Props/C19.v)
-   still holds: it speaks of the stored Min / Max coordinates, whatever their order. *)
-From T38 Require Import Base.Bytes Model.Float32 Model.Collection Proofs.CollectionProofs Proofs.CollBoundsInverted.
+(* C19 (continuation) — finding C19-inverted-bounds, repaired in /repo by 85e217d
+   ("fix: SET key id BOUNDS must order the two corners it is given").
+
+   The property wants the box BOUNDS reports to contain every retrievable geometry.  For the PINNED
+   cmdSET (Model/SetBounds.v set_bounds_rect_pinned: the corners as given) it is FALSE: witness
+   SET k a BOUNDS 10 10 0 0 ; SET k b POINT 5 5 ; BOUNDS k -> [[5 5] [5 5]], which the collection model
+   admits (bounds_ok, even bounds_exact) and which does not contain a's corner (10, 10) — kept below as
+   c19_bounds_inverted_rect_pinned_refuted.  The repaired cmdSET (set_bounds_rect) orders the corners, so
+   every BOUNDS object enters the collection with Min <= Max (c19_set_bounds_ordered), and with ordered
+   rectangles in the index an exact box contains every indexed object (c19_ordered_box_contains).
+   Only property theorems, each closed by a lemma of Proofs/CollBoundsInverted.v. *)
+From Flocq Require Import Core BinarySingleNaN.
+From T38 Require Import Base.Bytes Model.Float32 Model.Collection Proofs.CollectionProofs Model.SetBounds
+  Proofs.CollBoundsInverted.
 Import ListNotations.
 
-Theorem c19_bounds_inverted_rect_refuted :
-  exists c b o, Wf c /\ In o (spatial_list c) /\ bounds_ok c b = true /\ bounds_exact c b = true /\
-                le64 (r64_minx (o_rect o)) (r64_maxx b) = false.
-Proof. exact bounds_inverted_refuted. Qed.
-Print Assumptions c19_bounds_inverted_rect_refuted.
+(* the pinned construction: an unordered "rectangle" reaches the index and the reported box misses it;
+   the repaired construction orders the same four numbers *)
+Theorem c19_bounds_inverted_rect_pinned_refuted :
+  exists v0 v1 v2 v3 c b o,
+    o_rect o = set_bounds_rect_pinned v0 v1 v2 v3 /\ rect_ordered (o_rect o) = false /\
+    Wf c /\ In o (spatial_list c) /\ bounds_ok c b = true /\ bounds_exact c b = true /\
+    le64 (r64_minx (o_rect o)) (r64_maxx b) = false /\
+    rect_ordered (set_bounds_rect v0 v1 v2 v3) = true.
+Proof. exact bounds_inverted_pinned_refuted. Qed.
+Print Assumptions c19_bounds_inverted_rect_pinned_refuted.
+
+(* the repaired cmdSET: whatever order the two corners come in (finite numbers), Min <= Max *)
+Theorem c19_set_bounds_ordered : forall v0 v1 v2 v3 : f64,
+  is_finite v0 = true -> is_finite v1 = true -> is_finite v2 = true -> is_finite v3 = true ->
+  rect_ordered (set_bounds_rect v0 v1 v2 v3) = true.
+Proof. exact set_bounds_ordered. Qed.
+Print Assumptions c19_set_bounds_ordered.
+
+(* ... and corners given in order are stored unchanged *)
+Theorem c19_set_bounds_keeps_ordered : forall v0 v1 v2 v3 : f64,
+  gt64 v0 v2 = false -> gt64 v1 v3 = false ->
+  set_bounds_rect v0 v1 v2 v3 = set_bounds_rect_pinned v0 v1 v2 v3.
+Proof. exact set_bounds_keeps_ordered. Qed.
+Print Assumptions c19_set_bounds_keeps_ordered.
+
+(* with ordered rectangles in the spatial index a box that is exact in the model's sense contains
+   every indexed object (both of its corners): the pinned witness cannot occur *)
+Theorem c19_ordered_box_contains : forall c b, finite_rect b ->
+  (forall o, In o (spatial_list c) -> finite_rect (o_rect o) /\ rect_ordered (o_rect o) = true) ->
+  bounds_exact c b = true ->
+  forall o, In o (spatial_list c) ->
+    le64 (r64_minx (o_rect o)) (r64_maxx b) = true /\ le64 (r64_miny (o_rect o)) (r64_maxy b) = true /\
+    le64 (r64_minx b) (r64_maxx (o_rect o)) = true /\ le64 (r64_miny b) (r64_maxy (o_rect o)) = true.
+Proof. exact ordered_box_contains. Qed.
+Print Assumptions c19_ordered_box_contains.
